@@ -996,8 +996,25 @@ func hdrToHTTP(h Hdr) http.Header {
 // locGlue: url.Parse of a Location-like value.
 var qClassFields = []string{"Accept", "Accept-Charset", "Accept-Language", "Accept-Encoding", "Te", "Content-Encoding"}
 
+// uriBytes: a reference as it is written, with the bytes that cannot occur in a URI at all (space, controls,
+// non-ASCII, and "<>\^`{|}) percent-encoded and everything else — existing escapes, sub-delims — left as it
+// is (the RFC 3987 §3.1 mapping). This is the reference the field "names"; url.Parse's own re-encoding of such a
+// value also escapes "!'()*" and turns "%2F" into a slash, which names another URI.
+func uriBytes(s string) string {
+	var b strings.Builder
+	for i := 0; i < len(s); i++ {
+		c := s[i]
+		if c <= 0x20 || c >= 0x7f || strings.IndexByte("\"<>\\^`{|}", c) >= 0 {
+			fmt.Fprintf(&b, "%%%02X", c)
+		} else {
+			b.WriteByte(c)
+		}
+	}
+	return b.String()
+}
+
 func locGlue(reqURL *url.URL, loc string) string {
-	lu, err := url.Parse(loc)
+	lu, err := url.Parse(uriBytes(loc))
 	if err != nil {
 		return "bad\t-\t-\t-\t-\t-\t-\t-"
 	}
